@@ -209,21 +209,27 @@ def load_known():
         return json.load(f)
 
 
-def minimise(mod, seed, tier, scenario, sig, effort=400):
+def minimise(mod, seed, tier, scenario, sig, effort=400, deadline=None):
     '''greedy reduction of the scenario; the schedule is re-searched with a
     few seeds per candidate, and a candidate is kept only if the same
-    violation signature reappears'''
+    violation signature reappears.  Bounded by a number of runs and by a
+    wall clock deadline (what is reached by then is reported).'''
     if not hasattr(mod, 'shrink'):
         return scenario, seed
     tries = 0
     best, best_seed = scenario, seed
     improved = True
-    while improved and tries < effort:
+
+    def late():
+        return deadline is not None and time.time() > deadline
+    while improved and tries < effort and not late():
         improved = False
         for cand in mod.shrink(best):
-            if tries >= effort:
+            if tries >= effort or late():
                 break
             for s in (best_seed, best_seed + 1, best_seed + 2):
+                if late():
+                    break
                 tries += 1
                 try:
                     out = run_seed(mod, s, tier, scenario=cand)
@@ -312,6 +318,11 @@ def check(prop, tier, nseeds=None, budget=None):
     exit_code = 0
     new_violations = 0
     lines = list()
+    # wall clock budget for minimisation, shared by all new signatures
+    min_budget = float(os.environ.get('VERIF_MIN_BUDGET_S', 0)) or \
+        (150.0 if tier == 'quick' else 900.0)
+    t_min0  = time.time()
+    n_new   = max(1, len([x for x in by_sig if x not in kmap]))
     for sig in sorted(by_sig):
         rs = by_sig[sig]
         if sig in kmap:
@@ -321,7 +332,10 @@ def check(prop, tier, nseeds=None, budget=None):
             continue
         new_violations += 1
         first = rs[0]
-        sc, sd = minimise(mod, first['seed'], tier, first['scenario'], sig)
+        share = min_budget / n_new
+        sc, sd = minimise(mod, first['seed'], tier, first['scenario'], sig,
+                          deadline=min(time.time() + share,
+                                       t_min0 + min_budget))
         path, out = write_replay(prop, sig, sd, tier, mod, sc)
         lines.append('VIOLATION property=%s replay=%s' % (prop, path))
         lines.append('  signature=%s runs=%d first_seed=%d' %
